@@ -69,3 +69,41 @@ def _c04_atleast(case, mm):
         if s.get("h") == mm.extra["h"]:
             return s["k"] == "op" and s["op"].startswith("atleast_") and s.get("constant") is not None
     return False
+
+
+def _c09_phaseB(case):
+    stmts = case["prog"]["stmts"]
+    return stmts, case["endA"]
+
+
+@predicate("C09-cleared-tensor-reused-or-mutated")
+def _c09_stale(case, mm):
+    if mm.kind not in ("grad_from_post_mutation_values", "grad_not_of_recorded_computation",
+                       "final_backward_wrong_exception", "grad_missing", "grad_written_to_unrelated", "raised"):
+        return False
+    if mm.kind == "raised" and "RecursionError" not in mm.detail:
+        return False
+    stmts, endA = _c09_phaseB(case)
+    seen_clear = False
+    for s in stmts[endA:]:
+        if s["k"] in ("backward", "clear"):
+            seen_clear = True
+        elif seen_clear and s["k"] in ("inplace", "op"):
+            return True
+    return False
+
+
+@predicate("C09-terminal-cleared-by-downstream-backward")
+def _c09_cleared_terminal(case, mm):
+    if mm.kind not in ("grad_not_of_recorded_computation", "grad_missing"):
+        return False
+    from vf.ir import RefRun
+
+    stmts, endA = _c09_phaseB(case)
+    L = case["L"]
+    for i, s in enumerate(stmts[endA:], start=endA):
+        if s["k"] in ("backward", "clear") and s["h"] != L:
+            ref = RefRun(case["prog"], stop_at=i).run()
+            if s["h"] in ref.env and L in ref.env and ref.tok(L) in ref.D.get(ref.tok(s["h"]), frozenset()):
+                return True
+    return False
